@@ -26,6 +26,7 @@ type RunSpec struct {
 	Budget   int
 	MaxPaths int
 	Label    string
+	CrossObs bool // observations with the same label must agree across all paths of the run (fresh state per path)
 }
 
 type PropSpec struct {
@@ -50,6 +51,9 @@ type ReplayFile struct {
 	Inputs   []ReplayInput `json:"inputs"`
 	Expect   string        `json:"expect"`
 	Note     string        `json:"note,omitempty"`
+	// history violations: a second execution (fresh process) whose observation Label must agree
+	CompareWith []ReplayInput `json:"compare_with,omitempty"`
+	Label       string        `json:"label,omitempty"`
 }
 
 type KnownFinding struct {
@@ -145,6 +149,22 @@ func runNativeFile(bin, path string, timeout time.Duration) nativeResult {
 		res.Msg = fmt.Sprintf("exit %d: %s", code, firstLines(res.Out, 5))
 	}
 	return res
+}
+
+func obsValue(obs []string, label string) (string, bool) {
+	for _, o := range obs {
+		if strings.HasPrefix(o, label+"=") {
+			return o[len(label)+1:], true
+		}
+	}
+	return "", false
+}
+
+func clip(s string, n int) string {
+	if len(s) > n {
+		return s[:n] + "…"
+	}
+	return s
 }
 
 func firstLines(s string, n int) string {
@@ -398,6 +418,9 @@ func cmdCheck(argv []string) int {
 			budget = 400000
 		}
 		h := &HarnessRun{Name: rs.Harness, Fn: fn, Args: rs.Args, Budget: budget, SampleK: sampleK, MaxPaths: rs.MaxPaths, Deadline: deadline}
+		if rs.CrossObs {
+			h.SampleK, h.KeepAll = 1, true
+		}
 		st := e.explore(h, *workers)
 		for round := 0; round < 6; round++ {
 			// a shared location was seen written for the first time: accesses to it are
@@ -410,7 +433,36 @@ func cmdCheck(argv []string) int {
 				break
 			}
 			h = &HarnessRun{Name: rs.Harness, Fn: fn, Args: rs.Args, Budget: budget, SampleK: sampleK, MaxPaths: rs.MaxPaths, Deadline: deadline}
+			if rs.CrossObs {
+				h.SampleK, h.KeepAll = 1, true
+			}
 			st = e.explore(h, *workers)
+		}
+		if rs.CrossObs {
+			// every path starts from the process's initial state: observations under one label
+			// (the result of one call) must not depend on which other calls the path made before
+			firstVal := map[string]string{}
+			firstIdx := map[string]int{}
+			reported := map[string]bool{}
+			for i, obs := range st.ValidateObs {
+				if st.ValidateWant[i] != "ok" {
+					continue
+				}
+				for _, o := range obs {
+					k := strings.Index(o, "=")
+					if k < 0 || strings.HasSuffix(o, "=?") {
+						continue
+					}
+					label, val := o[:k], o[k+1:]
+					if fv, ok := firstVal[label]; !ok {
+						firstVal[label], firstIdx[label] = val, i
+					} else if fv != val && !reported[label] {
+						reported[label] = true
+						st.Violations = append(st.Violations, &Violation{Kind: "history", Msg: "the result of a call depends on the calls made before it",
+							Inputs: st.Validate[i], Other: st.Validate[firstIdx[label]], Label: label, Where: rs.Harness})
+					}
+				}
+			}
 		}
 		inconclusive += h.inconclusive
 		total.Paths += st.Paths
@@ -447,6 +499,10 @@ func cmdCheck(argv []string) int {
 			"solver_cache_hits": st.Solver.CacheHit, "truncated": st.Truncated, "max_decisions_on_a_path": st.MaxDecisions,
 		})
 		fmt.Printf("run %s%v: paths=%d outcomes=%v violations=%d wall=%.1fs\n", rs.Harness, rs.Args, st.Paths, st.Outcomes, len(st.Violations), st.Wall.Seconds())
+		if rs.CrossObs && len(st.Validate) > 3 {
+			// cross-path runs keep every path for the comparison; three of them are validated natively
+			st.Validate, st.ValidateWant, st.ValidateObs = st.Validate[:3], st.ValidateWant[:3], st.ValidateObs[:3]
+		}
 		// native validation of sampled leaves
 		for i, ins := range st.Validate {
 			rf := &ReplayFile{Property: id, Harness: rs.Harness, Args: rs.Args, Inputs: ins, Expect: st.ValidateWant[i]}
@@ -528,7 +584,7 @@ func cmdCheck(argv []string) int {
 		if v.Kind == "assert" {
 			expect = "assert:" + v.Msg
 		}
-		rf := &ReplayFile{Property: id, Harness: rs.Harness, Args: rs.Args, Inputs: v.Inputs, Expect: expect, Note: v.Where}
+		rf := &ReplayFile{Property: id, Harness: rs.Harness, Args: rs.Args, Inputs: v.Inputs, Expect: expect, Note: v.Where, CompareWith: v.Other, Label: v.Label}
 		timeout := 20 * time.Second
 		if v.Kind == "hang" {
 			timeout = 5 * time.Second
@@ -557,6 +613,15 @@ func cmdCheck(argv []string) int {
 			reproduced = nr.Outcome == "panic"
 		case "hang":
 			reproduced = nr.Outcome == "hang"
+		case "history":
+			// two fresh native processes, one per call order: the observation must differ there too
+			other := runNative(replayBin, &ReplayFile{Property: id, Harness: rs.Harness, Args: rs.Args, Inputs: v.Other}, buildDir, timeout)
+			a, okA := obsValue(nr.Obs, v.Label)
+			b, okB := obsValue(other.Obs, v.Label)
+			reproduced = nr.Outcome == "passed" && other.Outcome == "passed" && okA && okB && a != b
+			if reproduced {
+				v.Msg += fmt.Sprintf(" (%s: %q after other calls, %q in a fresh process)", v.Label, clip(a, 120), clip(b, 120))
+			}
 		}
 		rendered := showInputs(v.Inputs)
 		if !reproduced {
@@ -777,6 +842,17 @@ func cmdReplay(argv []string) int {
 	}
 	nr := runNativeFile(bin, argv[0], timeout)
 	fmt.Printf("replay %s: harness=%s%v input=%s\n  native outcome: %s %s\n", argv[0], rf.Harness, rf.Args, showInputs(rf.Inputs), nr.Outcome, nr.Msg)
+	if rf.CompareWith != nil {
+		other := runNative(bin, &ReplayFile{Property: rf.Property, Harness: rf.Harness, Args: rf.Args, Inputs: rf.CompareWith}, buildDir, timeout)
+		a, okA := obsValue(nr.Obs, rf.Label)
+		b, okB := obsValue(other.Obs, rf.Label)
+		fmt.Printf("  compared with a fresh process on input=%s\n  %s here:  %q\n  %s there: %q\n", showInputs(rf.CompareWith), rf.Label, a, rf.Label, b)
+		if okA && okB && a != b {
+			fmt.Printf("VIOLATION property=%s replay=%s\n", rf.Property, argv[0])
+			return 1
+		}
+		return 0
+	}
 	switch nr.Outcome {
 	case "passed", "assume":
 		return 0
